@@ -10,6 +10,7 @@
    STANDARD observance has an onset.  Outside each conjunct the property is refuted below.
    The zoneinfo provider hands the component to dateutil's tzical: NOT modelled, NOT proved. *)
 Require Import Lib.Base Model.Params Model.TzRules Model.TzCache Proofs.TzRulesProofs Proofs.TzCacheProofs.
+Require Import Model.CodecBase Model.TzOnsets Proofs.TzOnsetsProofs.
 Open Scope Z_scope.
 
 (* for every definition inside the guard and every instant from the first onset on: offset and
@@ -159,3 +160,140 @@ Theorem C12_cache_history_refuted_late :
   = [[None]; [Some (RCustom 3)]].
 Proof. exact cache_late. Qed.
 Print Assumptions C12_cache_history_refuted_late.
+
+(* the onsets of the common rule family, computed in the model ------------------------------ *)
+(* Model/TzOnsets.v.  A rule [r : yrule] is DTSTART (y_year .. y_sec, wall clock), BYMONTH=y_bymonth,
+   BYDAY=<y_n><y_wd> (y_wd: 0 = MO .. 6 = SU), a bound (UNTIL=<utc seconds> | COUNT=k | neither =
+   UNTIL 2038-12-31T00:00:00Z, [rule_until]) and TZOFFSETFROM y_from.  [yearly_onsets ylast r] = its
+   local onsets (wall-clock seconds since 1970-01-01T00:00:00) among the years y_year r .. ylast.
+   [yrule_wf]: DTSTART is a date and a time, 1 <= BYMONTH <= 12, 0 <= weekday <= 6, n <> 0.
+   Years range over all of Z (proleptic Gregorian calendar); nothing below is restricted to a
+   range of years other than the stated y_year r .. ylast.
+   [count_days f a len] = how many of the len days a, a+1, .. satisfy f;
+   [same_weekday Y m wd k] = day k of month m of year Y falls on weekday wd. *)
+
+(* (a) every onset: its calendar date (computed back from the number of seconds) lies in BYMONTH of a
+   year of the range, its time of day is DTSTART's, it falls on the weekday, and it is the n-th such
+   weekday of its month: exactly n-1 earlier days of that month fall on that weekday (n > 0), resp.
+   exactly -n-1 later ones (n < 0); and it is not before DTSTART *)
+Theorem C12_yearly_onsets_spec : forall ylast r o, yrule_wf r = true -> In o (yearly_onsets ylast r) ->
+  exists Y d,
+    y_year r <= Y <= ylast /\
+    civil_from_days (o / 86400) = (Y, y_bymonth r, d) /\
+    o mod 86400 = y_hour r * 3600 + y_min r * 60 + y_sec r /\
+    weekday_of_days (o / 86400) = y_wd r /\
+    1 <= d <= days_in_month Y (y_bymonth r) /\
+    (0 < y_n r -> count_days (same_weekday Y (y_bymonth r) (y_wd r)) 1 (Z.to_nat (d - 1)) = y_n r - 1) /\
+    (y_n r < 0 -> count_days (same_weekday Y (y_bymonth r) (y_wd r)) (d + 1)
+                    (Z.to_nat (days_in_month Y (y_bymonth r) - d)) = - y_n r - 1) /\
+    dtstart_secs r <= o.
+Proof. exact yearly_onsets_each. Qed.
+Print Assumptions C12_yearly_onsets_spec.
+
+(* (b) strictly increasing, at most one per calendar year (the years increase strictly), none before
+   DTSTART, all within the range of years *)
+Theorem C12_yearly_onsets_order : forall ylast r, yrule_wf r = true ->
+  Sorted.StronglySorted Z.lt (yearly_onsets ylast r) /\
+  Sorted.StronglySorted Z.lt (map year_of_secs (yearly_onsets ylast r)) /\
+  Forall (fun o => dtstart_secs r <= o /\ y_year r <= year_of_secs o <= ylast) (yearly_onsets ylast r).
+Proof. exact yearly_onsets_order. Qed.
+Print Assumptions C12_yearly_onsets_order.
+
+(* nothing is left out of the candidates: a year of the range whose month has the n-th weekday, on
+   or after DTSTART, contributes it *)
+Theorem C12_yearly_candidates_complete : forall ylast r Y d,
+  y_year r <= Y <= ylast -> nth_weekday Y (y_bymonth r) (y_n r) (y_wd r) = Some d ->
+  dtstart_secs r <= local_secs Y (y_bymonth r) d (y_hour r) (y_min r) (y_sec r) ->
+  In (local_secs Y (y_bymonth r) d (y_hour r) (y_min r) (y_sec r)) (candidates ylast r).
+Proof. exact candidates_complete. Qed.
+Print Assumptions C12_yearly_candidates_complete.
+
+(* (c) UNTIL (or the horizon) is a UTC instant: every onset has onset - TZOFFSETFROM <= UNTIL, the onsets
+   are a prefix of the candidates and every remaining candidate violates the bound (in particular
+   the next one, if the range contains one) *)
+Theorem C12_yearly_onsets_until : forall ylast r u, yrule_wf r = true -> rule_until r = Some u ->
+  Forall (fun o => o - y_from r <= u) (yearly_onsets ylast r) /\
+  exists rest, candidates ylast r = yearly_onsets ylast r ++ rest /\
+               Forall (fun c => u < c - y_from r) rest.
+Proof. exact yearly_onsets_until. Qed.
+Print Assumptions C12_yearly_onsets_until.
+
+(* ... and the range of years does not matter once it reaches the calendar year of UNTIL + TZOFFSETFROM:
+   the onsets are then the instances of ALL years from DTSTART's on that satisfy the bound *)
+Theorem C12_yearly_onsets_until_all_years : forall ylast r u o, yrule_wf r = true -> rule_until r = Some u ->
+  year_of_secs (u + y_from r) <= ylast ->
+  (In o (yearly_onsets ylast r) <->
+   (exists Y, y_year r <= Y /\ candidate r Y = Some o) /\ o - y_from r <= u).
+Proof. exact yearly_onsets_until_all_years. Qed.
+Print Assumptions C12_yearly_onsets_until_all_years.
+
+(* (c) COUNT=k: the first k candidates of the range; min(k, available) of them *)
+Theorem C12_yearly_onsets_count : forall ylast r k, y_bound r = YCount k ->
+  yearly_onsets ylast r = firstn (Z.to_nat k) (candidates ylast r) /\
+  length (yearly_onsets ylast r) = Nat.min (Z.to_nat k) (length (candidates ylast r)).
+Proof. exact yearly_onsets_count. Qed.
+Print Assumptions C12_yearly_onsets_count.
+
+(* what the dispatcher entry tz_yearly_onsets answers (the harness compares it with
+   Timezone._extract_offsets): well-formed rule, the range y_year r .. default_last_year r, DTSTART is
+   the first onset, and for UNTIL / unbounded rules exactly the instances of all years within the bound *)
+Theorem C12_family_onsets_spec : forall r l, family_onsets r = Some l ->
+  yrule_wf r = true /\ l = yearly_onsets (default_last_year r) r /\ hd_error l = Some (dtstart_secs r) /\
+  forall u, rule_until r = Some u ->
+    forall o, In o l <-> (exists Y, y_year r <= Y /\ candidate r Y = Some o) /\ o - y_from r <= u.
+Proof. exact family_onsets_spec. Qed.
+Print Assumptions C12_family_onsets_spec.
+
+(* the n-th weekday of a month: what [nth_weekday] returns, that it is the only such day, and that
+   it returns nothing only when the month has fewer than |n| days of that weekday *)
+Theorem C12_nth_weekday_spec : forall y m n wd d, nth_weekday y m n wd = Some d ->
+  1 <= m <= 12 /\ 0 <= wd <= 6 /\ n <> 0 /\ 1 <= d <= days_in_month y m /\ weekday y m d = wd /\
+  (0 < n -> count_days (same_weekday y m wd) 1 (Z.to_nat (d - 1)) = n - 1) /\
+  (n < 0 -> count_days (same_weekday y m wd) (d + 1) (Z.to_nat (days_in_month y m - d)) = - n - 1).
+Proof. exact nth_weekday_sound. Qed.
+Print Assumptions C12_nth_weekday_spec.
+Theorem C12_nth_weekday_unique : forall y m n wd d,
+  1 <= m <= 12 -> 0 <= wd <= 6 -> 1 <= d <= days_in_month y m -> weekday y m d = wd ->
+  (0 < n /\ count_days (same_weekday y m wd) 1 (Z.to_nat (d - 1)) = n - 1) \/
+  (n < 0 /\ count_days (same_weekday y m wd) (d + 1) (Z.to_nat (days_in_month y m - d)) = - n - 1) ->
+  nth_weekday y m n wd = Some d.
+Proof. exact nth_weekday_complete. Qed.
+Print Assumptions C12_nth_weekday_unique.
+Theorem C12_nth_weekday_none : forall y m n wd, nth_weekday y m n wd = None ->
+  1 <= m <= 12 -> 0 <= wd <= 6 -> n <> 0 ->
+  count_days (same_weekday y m wd) 1 (Z.to_nat (days_in_month y m)) < Z.abs n.
+Proof. exact nth_weekday_none. Qed.
+Print Assumptions C12_nth_weekday_none.
+
+(* (d) the day-number function, for every year in Z ([valid_md y m d]: 1 <= m <= 12 and
+   1 <= d <= days_in_month y m): date -> number -> date and number -> date -> number are identities,
+   1970-01-01 is day 0, the date after a date (by month lengths) has the next number and the next
+   weekday, and the number agrees with the codec area's model of date.toordinal() *)
+Theorem C12_day_number_sound :
+  (forall y m d, valid_md y m d -> civil_from_days (days_from_civil y m d) = (y, m, d)) /\
+  (forall z, let '(y, m, d) := civil_from_days z in valid_md y m d /\ days_from_civil y m d = z) /\
+  days_from_civil 1970 1 1 = 0 /\ weekday 1970 1 1 = 3 /\
+  (forall y m d, valid_md y m d ->
+     let '(y2, m2, d2) := next_date y m d in
+     valid_md y2 m2 d2 /\ days_from_civil y2 m2 d2 = days_from_civil y m d + 1 /\
+     weekday y2 m2 d2 = (weekday y m d + 1) mod 7) /\
+  (forall y m d, 1 <= m <= 12 -> ordinal y m d = days_from_civil y m d + 719163).
+Proof. exact day_number_sound. Qed.
+Print Assumptions C12_day_number_sound.
+
+(* the usual European rule.  DAYLIGHT: DTSTART:19810329T020000, TZOFFSETFROM:+0100,
+   RRULE:FREQ=YEARLY;BYMONTH=3;BYDAY=-1SU;UNTIL=20250330T010000Z (= the onset of 2025 in UTC);
+   STANDARD: DTSTART:19961027T030000, TZOFFSETFROM:+0200, RRULE:FREQ=YEARLY;BYMONTH=10;BYDAY=-1SU *)
+Example C12_yearly_onsets_europe :
+  yrule_wf ex_eu_dst = true /\ yrule_wf ex_eu_std = true /\
+  family_onsets ex_eu_dst = Some ex_eu_dst_onsets /\ family_onsets ex_eu_std = Some ex_eu_std_onsets /\
+  default_last_year ex_eu_dst = 2025 /\ default_last_year ex_eu_std = 2038 /\
+  length ex_eu_dst_onsets = 45%nat /\ length ex_eu_std_onsets = 43%nat /\
+  firstn 2 ex_eu_dst_onsets = [354679200; 386128800] /\ last ex_eu_dst_onsets 0 = 1743300000 /\
+  dtstart_secs ex_eu_dst = 354679200 /\ 1743300000 - y_from ex_eu_dst = 1743296400 /\
+  last (yearly_onsets 2025 (mkYrule 1981 3 29 2 0 0 3 (-1) 6 (YUntil 1743296399) 3600)) 0 = 1711850400 /\
+  hd 0 ex_eu_std_onsets = 846385200 /\ last ex_eu_std_onsets 0 = 2172106800 /\ horizon = 2177366400 /\
+  civil_from_days (2172106800 / 86400) = (2038, 10, 31) /\ weekday 2038 10 31 = 6 /\
+  nth_weekday 2038 10 (-1) 6 = Some 31 /\ nth_weekday 2024 2 5 3 = Some 29 /\ nth_weekday 2023 2 5 3 = None.
+Proof. exact ex_eu_ok. Qed.
+Print Assumptions C12_yearly_onsets_europe.
